@@ -10,7 +10,9 @@ def ring(pts):
     return r
 def mp(polys):
     return [[ring(r) for r in p] for p in polys]
-def add(tag, A, B, ops=("int", "union", "diff", "xor"), swap=True):
+def add(tag, A, B, ops=("int", "union", "diff", "xor"), swap=True, scale=1):
+    A = [[[(x * scale, y * scale) for (x, y) in r] for r in p] for p in A]
+    B = [[[(x * scale, y * scale) for (x, y) in r] for r in p] for p in B]
     ev = [{"ev": "def", "name": "A", "k": 0, "mp": mp(A), "rel": "base"},
           {"ev": "def", "name": "B", "k": 0, "mp": mp(B), "rel": "base"}]
     n = 0
@@ -42,6 +44,21 @@ add("shared-edge-side-by-side", [[sq(0, 0, 2, 2)]], [[sq(2, 0, 4, 2)]])
 add("diamond-in-square", [[sq(0, 0, 8, 8)]], [[[(4, 0), (8, 4), (4, 8), (0, 4)]]])
 add("bowtie-touch", [[[(0, 0), (4, 0), (2, 2)]], [[(2, 2), (4, 4), (0, 4)]]], [[[(0, 0), (2, 2), (0, 4)]], [[(4, 0), (4, 4), (2, 2)]]])
 add("comb", [[[(0, 0), (12, 0), (12, 2), (10, 2), (10, 6), (8, 6), (8, 2), (6, 2), (6, 6), (4, 6), (4, 2), (2, 2), (2, 6), (0, 6)]]], [[sq(1, 4, 11, 5)]])
+
+# hole of the subject directly above a boundary segment shared with an abutting clipping block
+frame = [sq(1, 4, 9, 9), list(reversed(sq(3, 6, 7, 8)))]
+add("frame-block-below-window", [frame], [[sq(2, 2, 8, 4)]])
+add("frame-block-below-beside", [frame], [[sq(1, 2, 3, 4)]])
+add("frame-block-on-top", [frame], [[sq(2, 9, 8, 10)]])
+add("frame-block-left", [frame], [[sq(-1, 5, 1, 8)]])
+add("frame-block-in-window", [frame], [[sq(3, 6, 5, 8)]])
+add("slab-box-island", [[sq(0, 0, 4, 2)], [sq(1, 5, 3, 6)]], [[sq(1, 2, 3, 4)]])
+add("T-touch-vertical-right", [[sq(0, 0, 10, 10)]], [[[(10, 5), (15, 3), (15, 8)]]])
+add("T-touch-vertical-left-tip", [[[(0, 0), (4, 3), (0, 4)]]], [[[(0, 2), (4, 0), (4, 1)]]], scale=10)
+add("notch-aligned-vertex", [[[(0, 0), (6, 0), (6, 6), (0, 6), (2, 3)]]], [[[(2, 1), (5, 1), (5, 7)]]], scale=2)
+add("vertex-on-edge-from-below", [[[(0, 0), (2, 1), (0, 2)]]], [[[(1, 2), (3, 0), (3, 3)]]])
+add("tall-low-parts", [[sq(0, 0, 4, 10)], [sq(6, 0, 8, 2)]], [[sq(2, 5, 6, 8)]])
+add("tip-in-strip", [[[(0, 4), (4, 0), (8, 10)]]], [[sq(2, 1, 6, 3)]], scale=10)
 
 if __name__ == "__main__":
     out = os.path.join(os.path.dirname(os.path.dirname(os.path.abspath(__file__))), "corpus", "hand.ndjson")
